@@ -30,8 +30,8 @@ def free_port():
 class Pool:
     """`start_cluster(dir, cores, host, port)` in its own process group."""
 
-    def __init__(self, workdir, cores):
-        self.port = free_port()
+    def __init__(self, workdir, cores, port=None):
+        self.port = port or free_port()
         env = dict(os.environ)
         env["PYTHONPATH"] = os.environ.get("GWF_VERIF_SRC", "/repo/src")
         os.makedirs(os.path.join(workdir, ".gwf", "logs"), exist_ok=True)
@@ -366,3 +366,176 @@ def run_real(case):
         finally:
             pool.stop()
     return viols, labels, info
+
+
+# ---------------------------------------------------------------------------------------------------------------
+# `gwf cancel` of several targets against a pool that does not know some of them (C17)
+
+@st.composite
+def restart_cancel_case(draw, max_tasks=6):
+    """Targets whose latest job is: stale (accepted by an earlier pool that was killed and restarted, so the
+    running pool has never heard of the id), live (running now), finished (ran to its end in the running pool),
+    never (not submitted).  Then one `gwf cancel` naming several of them."""
+    n = draw(st.integers(3, max_tasks))
+    kinds = [draw(st.sampled_from(["stale", "stale", "live", "live", "finished", "never"])) for _ in range(n)]
+    kinds[draw(st.integers(0, n - 1))] = "live"
+    if not any(k in ("stale", "finished") for k in kinds):
+        j = draw(st.sampled_from([i for i, k in enumerate(kinds) if k != "live"] or [0]))
+        kinds[j] = draw(st.sampled_from(["stale", "finished"]))
+        if "live" not in kinds:
+            kinds[(j + 1) % n] = "live"
+    everything = draw(st.sampled_from([True, True, False]))
+    if everything:
+        select = None
+    else:
+        select = sorted(draw(st.sets(st.integers(0, n - 1), min_size=2)))
+    return {"kind": "restart-cancel", "kinds": kinds, "select": select, "same_port": draw(st.booleans())}
+
+
+def run_restart_cancel(case):
+    """Returns (violations [(prop, sig, msg)], labels, info)."""
+    import re
+
+    viols, labels = [], set()
+
+    def v(kind, msg, **sig):
+        viols.append(("C17", {"kind": kind, "tier": "real-restart", **sig}, msg))
+
+    kinds = case["kinds"]
+    names = [f"k{i}" for i in range(len(kinds))]
+    of = {k: [names[i] for i, x in enumerate(kinds) if x == k] for k in ("stale", "live", "finished", "never")}
+    LONG = 12000
+    with project.Project({"targets": [], "files": {}}, backend="local") as proj:
+        journal = proj.path("journal.txt")
+        open(journal, "w").close()
+        targets = []
+        for i, k in enumerate(kinds):
+            t = {"rc": 0, "sleep_ms": 40 if k == "finished" else LONG, "out_bytes": 0}
+            spec = task_spec(names[i], t, journal)
+            if k == "finished":
+                spec = spec.replace(f"echo made > {names[i]}.out\n", "")  # it ends, but its output is not there
+            targets.append({"name": names[i], "inputs": [], "outputs": [f"{names[i]}.out"], "spec": spec, "wd": None})
+        proj.write_desc({"targets": targets, "files": {}})
+
+        def journal_lines():
+            with open(journal) as f:
+                return [l.split() for l in f.read().splitlines() if l.strip()]
+
+        def wait_for(pred, secs):
+            deadline = time.monotonic() + secs
+            while time.monotonic() < deadline:
+                if pred(journal_lines()):
+                    return True
+                time.sleep(0.05)
+            return False
+
+        pools, stray = [], []
+        try:
+            cores = len(names) + 1
+            pool = Pool(proj.dir, cores)
+            pools.append(pool)
+            proj.write_config({"backend": "local", "backend.local.port": pool.port, "backend.local.host": "127.0.0.1"})
+            if of["stale"]:
+                r = proj.gwf(["run", *of["stale"]])
+                if r.code != 0 or r.crashed:
+                    raise SubjectFailure("run against the first pool failed: " + r.brief())
+                if not wait_for(lambda jl: {l[1] for l in jl if l[0] == "start"} >= set(of["stale"]), 15):
+                    return viols, {"inconclusive-timeout"}, {"inconclusive": True}
+                stray = [int(l[2]) for l in journal_lines() if l[0] == "start"]
+                pool.stop()
+                for pid in stray:  # the tasks of the killed pool run in sessions of their own: end them as well
+                    for target in (lambda p: os.killpg(p, signal.SIGKILL), lambda p: os.kill(p, signal.SIGKILL)):
+                        try:
+                            target(pid)
+                        except (ProcessLookupError, PermissionError):
+                            pass
+                time.sleep(0.2)
+                pool = Pool(proj.dir, cores, port=pool.port if case["same_port"] else None)
+                pools.append(pool)
+                proj.write_config({"backend": "local", "backend.local.port": pool.port, "backend.local.host": "127.0.0.1"})
+                labels.add("pool-restarted")
+            now = of["live"] + of["finished"]
+            r = proj.gwf(["run", *now])
+            if r.code != 0 or r.crashed:
+                raise SubjectFailure("run against the pool failed: " + r.brief())
+
+            def settled(jl):
+                st_ = {l[1] for l in jl if l[0] == "start" and int(l[2]) not in stray}
+                en = {l[1] for l in jl if l[0] == "end"}
+                return st_ >= set(now) and en >= set(of["finished"])
+
+            if not wait_for(settled, 15):
+                return viols, {"inconclusive-timeout"}, {"inconclusive": True}
+            time.sleep(0.3)  # the pool notices the end of the short tasks
+            pid_of = {}
+            for l in journal_lines():
+                if l[0] == "start" and int(l[2]) not in stray:
+                    pid_of[l[1]] = int(l[2])
+            started_ns = time.time_ns()
+            selected = names if case["select"] is None else [names[i] for i in case["select"]]
+            args = ["cancel", "-f"] if case["select"] is None else ["cancel", *selected]
+            rc = proj.gwf(args)
+            t_cancel = time.monotonic()
+            text = rc.out + rc.err
+            if rc.crashed or rc.code != 0:
+                v("local-cancel-failed", f"`gwf {' '.join(args)}` with jobs {dict(zip(names, kinds))}: {rc.brief()}")
+            sel_live = [n for n in selected if n in of["live"]]
+            unsel_live = [n for n in of["live"] if n not in selected]
+            # every selected target with a running job is cancelled, whatever else was selected
+            deadline = t_cancel + 5
+            while time.monotonic() < deadline and any(pid_alive(pid_of[n]) for n in sel_live):
+                time.sleep(0.1)
+            ended = {l[1] for l in journal_lines() if l[0] == "end"}
+            for n in sel_live:
+                if pid_alive(pid_of[n]) and n not in ended:
+                    v("selected-running-target-not-cancelled",
+                      f"`gwf {' '.join(args)}` (latest jobs: {dict(zip(names, kinds))}) returned {rc.code}, yet the process "
+                      f"{pid_of[n]} of {n} is still running 5 s later; output: {text[-300:]!r}",
+                      other=sorted({kinds[names.index(m)] for m in selected if m != n}))
+            for n in unsel_live:
+                if not pid_alive(pid_of[n]) and n not in ended:
+                    v("unselected-target-cancelled", f"{n} was not selected by `gwf {' '.join(args)}` but its process is gone")
+            rs = proj.gwf(["status"])
+            table = rs.status_rows()
+            if rs.code != 0 or rs.crashed:
+                v("status-failed", rs.brief())
+            else:
+                for n in sel_live:
+                    if table.get(n) in ("submitted", "running"):
+                        v("still-in-flight-after-cancel", f"{n} shows {table.get(n)} after `gwf {' '.join(args)}` "
+                          f"(latest jobs: {dict(zip(names, kinds))})", backend="local")
+                for n in unsel_live:
+                    if table.get(n) != "running" and n not in ended:
+                        v("unselected-target-cancelled", f"{n} was not selected but shows {table.get(n)}")
+            # every selected target that could not be cancelled is reported (wording is free: it must be named
+            # somewhere beyond the "Cancelling target <name>" progress line)
+            for n in selected:
+                k = kinds[names.index(n)]
+                if k == "live":
+                    continue
+                word = re.compile(r"(?<![A-Za-z0-9_.])" + re.escape(n) + r"(?![A-Za-z0-9_.])")
+                mentions = sum(1 for line in text.splitlines() if word.search(line))
+                if mentions < 2 and not word.search(rc.out):
+                    v("uncancellable-not-reported",
+                      f"{n} ({k}: {'its job id is unknown to the running pool' if k == 'stale' else 'its job had already ended' if k == 'finished' else 'never submitted'}) "
+                      f"could not be cancelled but `gwf {' '.join(args)}` does not say so: {text[-300:]!r}", job=k)
+            labels.add("cancel")
+            if len(sel_live) >= 1 and any(kinds[names.index(m)] in ("stale", "finished") for m in selected):
+                labels.add("live-and-uncancellable-selected")
+            for k in ("stale", "finished", "never"):
+                if any(kinds[names.index(m)] == k for m in selected):
+                    labels.add("selected-" + k)
+        finally:
+            for p_ in pools:
+                p_.stop()
+            try:
+                for l in journal_lines():
+                    if l[0] == "start":
+                        for fn in (os.killpg, os.kill):
+                            try:
+                                fn(int(l[2]), signal.SIGKILL)
+                            except (ProcessLookupError, PermissionError):
+                                pass
+            except OSError:
+                pass
+    return viols, labels, {"nontrivial": "live-and-uncancellable-selected" in labels}
